@@ -100,6 +100,11 @@ def run(ctx):
                   "head(n) for natural n; iteration claims need at least one data column"]
     ctx.coq_file(os.path.join(C.COQ, "props", "C06.v"))
     _translated(ctx)
+    if not ctx.quick():
+        # independent re-check of the compiled theorems (and everything they depend on) by coqchk
+        rc, out = C.run(["coqchk", "-o", "-silent", "-Q", "theories", "Pq", "-Q", "props", "", "C06"], cwd=C.COQ, timeout=1800)
+        ctx.obligation("coqchk -o C06.vo: re-checked, Axioms: <none>", rc == 0 and "* Axioms: <none>" in out, out[-1500:])
+        ctx.checker_cmds.append("coqchk -o -silent -Q theories Pq -Q props '' C06")
     bad = C.hygiene()
     ctx.obligation("hygiene: no Admitted/Axiom/Parameter/... in coq/", not bad, "; ".join(bad))
     C.shadow()
